@@ -65,6 +65,8 @@ def cases(draw):
         cfgs.append(sib)
     op = st.one_of(st.tuples(st.just("calibrate"), st.integers(1, 3)), st.tuples(st.just("calibrate"), st.integers(1, 3)),
                    st.tuples(st.just("checkpoint"), st.integers(0, 2)), st.tuples(st.just("restore")),
+                   st.tuples(st.just("set_samplers"), gen.lineup_spec(kinds=["halton", "rseq", "uniform", "pso"], min_len=1,
+                                                                      max_len=3, max_bs=2)),
                    st.tuples(st.just("new_run"), st.integers(0, len(cfgs) - 1), st.integers(0, 2)))
     ops = [["new_run", 0, 0]] + [list(o) for o in draw(st.lists(op, min_size=1, max_size=8))]
     if draw(st.integers(0, 2)) == 0 and len(cfgs) >= 2:
@@ -162,6 +164,11 @@ def check_json(ctx: Ctx, case):
                     wrote = folders[op[1]]
                     if cal.n_sampled_params == 0:
                         classes.add("empty-history-checkpoint")
+                elif op[0] == "set_samplers":
+                    # replaced sampler classes keep their ids only in the calibrator's id table
+                    cal.set_samplers([gen.make_sampler(x) for x in op[1]])
+                    classes.add("set_samplers")
+                    continue
                 elif op[0] == "restore":
                     if owner.get(cal.saving_folder) != run_id:
                         continue
